@@ -13,7 +13,7 @@ prop("C16", "proof",
      "Full-domain contracts (DESIGN P1) on bitcnt/clz/ctz/ilog2 enforced by goto-instrument --dfcc against CBMC's "
      "bit-vector primitives, plus an independent plain-C bit-loop oracle asserted in the harness; clz/ctz are verified "
      "modularly against bitcnt's contract, ilog2 against clz's. The constexpr macros are verified over all 2^64 run-time "
-     "values; their compile-time value is the same expression (C constant folding is trusted, three _Static_asserts sample it).",
+     "values; their compile-time value is the same expression (C constant folding is trusted, eight constant arguments sample it).",
      [
       H("bitcnt", B, "h_bitcnt", ["bitcnt"], enforce=["bitcnt"], unwind=65, timeout=120),
       H("clz", B, "h_clz", ["clz"], enforce=["clz"], replace=["bitcnt"], unwind=65, timeout=120),
@@ -22,6 +22,40 @@ prop("C16", "proof",
       H("ctz_field", B, "h_ctz_field", ["ctz"], replace=["ctz"], unwind=65, timeout=120),
       H("const_pop", B, "h_const_pop", ["const_pop (macro)"], unwind=65, timeout=300),
       H("const_lssb", B, "h_const_lssb", ["const_lssb (macro)"], unwind=65, timeout=300),
+      H("const_folded", B, "h_const_folded", ["const_pop (macro)", "const_lssb (macro)"], timeout=60),
      ],
      trusted=["compiler constant folding of the constexpr macros equals their run-time evaluation"],
      assumptions=["the bit loops of the harness oracle have constant bounds and are unwound completely (unwinding assertions on)"])
+
+# ---------------------------------------------------------------------------- C17
+R = "harness/C17_rand.c"
+def _rand_parts(bits, tiers, euclid=False, timeout=900):
+    return [H("rand31_r%s_part%02d_of_%d" % ("_euclid" if euclid else "", k, 1 << bits), R, "h_rand31", ["rand31_r"],
+              enforce=["rand31_r"], defs=["-DPARTBITS=%d" % bits, "-DPART=%d" % k] + (["-DEUCLID"] if euclid else []),
+              timeout=timeout, tiers=tiers, cover=(k == 0),
+              note="states with bits 16..%d equal to %d" % (15 + bits, k))
+            for k in range(1 << bits)]
+prop("C17", "proof",
+     "Contract on the real rand31_r (DESIGN P1): for every state 1..2^31-2 the result is (16807*s) mod (2^31-1) in 64-bit arithmetic, "
+     "is stored as the new state and lies in 1..2^31-2. Enforced by goto-instrument --dfcc; the domain is split into 16 (quick) / 64 (thorough) "
+     "partitions on bits 16.. of the state, all of which are run, so the union is the full domain. Thorough adds the Euclidean formulation "
+     "16807*s == q*M + r as an independent statement of the same fact.",
+     _rand_parts(4, ("quick",)) + _rand_parts(6, ("thorough",)) + _rand_parts(4, ("thorough",), euclid=True, timeout=1800),
+     trusted=["full period 2^31-2 follows from 16807 being a primitive root modulo the prime 2^31-1 (textbook fact, not machine-checked)"],
+     assumptions=["CaDiCaL is the only back end that discharges the multiplier equivalence in reasonable time"])
+
+# ---------------------------------------------------------------------------- C19
+RO = "harness/C19_rotenc.c"
+prop("C19", "proof",
+     "Step contract with a ghost latched position (DESIGN P1/P5): from every decoder state satisfying the invariant (arbitrary 16-bit position, "
+     "last state, latched count) and every next 2-bit state, rotenc_decode changes the position by the statement's delta table, and "
+     "rotenc_count / rotenc_count14 equal the latched position modulo 2^8 / 2^14. The invariant is re-established, so the result holds for "
+     "state sequences of any length by induction; ROTENC_VAR_INIT satisfies it. Bounce cancellation and the one-click bound are finite lemmas over the same contract.",
+     [
+      H("rotenc_decode", RO, "h_decode", ["rotenc_decode", "rotenc_count", "rotenc_count14"], enforce=["rotenc_decode"], timeout=120),
+      H("rotenc_bounce", RO, "h_bounce", ["rotenc_decode"], timeout=120),
+      H("rotenc_one_click", RO, "h_within_one_click", ["rotenc_count14"], timeout=120),
+      H("rotenc_init", RO, "h_init", ["ROTENC_VAR_INIT"], timeout=60),
+     ],
+     assumptions=["ghost variable g_latched is updated by the harness when a decode step presents the detent state 0 (definition of 'latched' taken from the statement)",
+                  "the one-click bound is stated for single-bit motion only (live position within 3 quarter steps of the latched one); invalid two-bit jumps can move the live position arbitrarily far without passing the detent"])
